@@ -67,7 +67,7 @@ def check_decl(dc, st, tier, only=None):
         raw = only['raw']
         ea.conformance(dc, st, raw, ea.ref_parse(dc.P, raw, only.get('start', 0)), only.get('start', 0))
         return
-    budget = 800 if tier == 'quick' else 4000
+    budget = ea.budget_for(dc, tier)
     for raw, r in ea.inputs_for(dc, budget):
         r, u = ea.conformance(dc, st, raw, r)
         st.add('states', ea.state_key(dc, r, u, raw))
